@@ -81,7 +81,7 @@ func specIsCompressed(flag uint32) bool  { return flag&FLAG_COMPRESS != 0 }
 // ---------- 2. Decompress ----------
 
 //@ func (p *Payload) Decompress
-//@   props C10 C12
+//@   props C10 C12 C09
 //@   ints bv
 //@   modifies ghostDecompressDone[p], p.Flag, p.Body, p.Addr, p.Cap, cmem.AllocRL.Size, cmem.AllocRL.MaxSize, cmem.AllocRL.Count, cmem.AllocRL.MaxCount, ghostFail()
 //@   ensures [assumed] ghostDecompressDone[p]      // ghost protocol state (verif_contracts_restart.go): Decompress has been applied to this payload
@@ -221,7 +221,7 @@ func lemmaCompressRoundTripBytes(rec *Record) (err error) {
 // decompression fails the record stays compressed and is charged with the decompressed size it
 // claimed - outside this clause)
 //@ func (dc *dataChunk) GetRecordByOffset
-//@   props C12 C10
+//@   props C12 C10 C09
 //@   ints bv
 //@   requires cmem.DBRL.GetData.Size >= 0 && cmem.DBRL.GetData.Size < 1<<60
 //@   modifies elems(ghostDecompressDone), cmem.DBRL.GetData.Size, cmem.DBRL.GetData.MaxSize, cmem.DBRL.GetData.Count, cmem.DBRL.GetData.MaxCount, cmem.AllocRL.Size, cmem.AllocRL.MaxSize, cmem.AllocRL.Count, cmem.AllocRL.MaxCount, ghostFail()
